@@ -286,9 +286,11 @@ pub fn probe_instants(z: &ZoneSpec, rng: &mut Rng, max_transitions: usize, nrand
             }
         }
     }
-    for &(l, c) in z.leaps.0.iter().take(8) {
-        for d in -2..=2i64 {
-            v.push(l - c as i64 + d);
+    for &(l, c) in z.leaps.0.iter().take(8).chain(z.leaps.0.last()) {
+        for d in -4..=4i64 {
+            if let Some(u) = l.checked_sub(c as i64).and_then(|x| x.checked_add(d)) {
+                v.push(u);
+            }
         }
     }
     if let Some(RuleSpec::Alt(a)) = &z.rule {
